@@ -107,8 +107,9 @@ Proof. exact (optional_only_ype_kw lit re_search nstr vstr lit_total re_total). 
    collector-free segments (keyword segments included), every operand is again
    such a path, and every operand, evaluated on the document the way
    _get_nodes_by_collector evaluates it, yields only NodeCoords that unwrap to
-   scalars.  Under the guard: no crash, no fuel exhaustion, and -- for
-   subtraction too -- no `del` on the document. *)
+   scalars.  Under the guard: no crash and no fuel exhaustion.  (That a read
+   never writes to the document holds for EVERY path since the repair of F16:
+   C09_required_pure / C09_exists_pure.) *)
 Theorem C15_required_only_ype_partial :
   forall (p : ppath) (d : node),
     kc_fragment lit re_search nstr vstr p d = true ->
@@ -165,18 +166,41 @@ Definition run_req (text : string) (d : node) : outcome (list N * stop) :=
   let g := get_required lit0 re0 nstr0 vstr0 kw0 cr0 p d in
   Ok (map (fun x => match x with RCoords (RNode n) _ _ _ _ => node_oid n | _ => 999%N end) (fst g), snd g).
 
-(* The full statement is FALSE once collector syntax is allowed: a collector
-   followed by bare text parses to a COLLECTOR-typed segment without collector
-   terms, and _get_nodes_by_path_segment raises NotImplementedError
-   (processor.py:931).  Known finding F25. *)
-Theorem C15_collector_text_refuted :
-  exists text,
-    match prepare 10 text with
+(* Finding F25, repaired (fix d6ff93f in YAMLPath._parse_path): a collector
+   followed by bare text -- "(a)b", "(a)'b'" -- used to parse to a
+   COLLECTOR-typed segment WITHOUT collector terms, for which
+   _get_nodes_by_path_segment raises NotImplementedError (processor.py:931;
+   the former C15_collector_text_refuted).  The parser now resets the segment
+   type when the collector is stored: "(a)b" has the segments of "(a).b", and
+   the query ends in a YAML Path error (no b below the collected scalar). *)
+Example C15_collector_then_text :
+  parse Auto true "(a)b" = parse Auto true "(a).b" /\
+  parse Auto true "(a)'b'" = parse Auto true "(a).b" /\
+  parse Auto true "(a)b" = Ok [(Some TCollector, ACollector CNone "a"); (Some TKey, AStr "b")] /\
+  match prepare 10 "(a)b" with
+  | Ok p => get_required lit0 re0 nstr0 vstr0 kw0 cr0 p doc_ab = ([], Err (YPE Unmatched))
+  | _ => False
+  end.
+Proof. vm_compute. repeat split; reflexivity. Qed.
+
+(* Still FALSE without the fragment: the parser accepts two malformed shapes
+   that leave a segment WITHOUT a usable type -- a collector opened inside an
+   open bracket ("[(a)]": the `]` stores a segment whose type is None) and a
+   stray `]` that pops a collector's parenthesis, the imbalance then being
+   repaired by a keyword's parentheses ("(][max(())]": a COLLECTOR-typed segment
+   holding the text "]") -- and _get_nodes_by_path_segment raises
+   NotImplementedError for both (processor.py:931).  Known finding F30, found
+   while repairing F25 (same raising site, other parser states). *)
+Theorem C15_bracket_collector_refuted :
+  forall text, In text ["[(a)]"; "(][max(())]"] ->
+    match prepare 14 text with
     | Ok p => in_fragment p = false /\
               snd (get_required lit0 re0 nstr0 vstr0 kw0 cr0 p doc_ab) = Err (PyCrash NotImplemented)
     | _ => False
     end.
-Proof. exists "(a)b". vm_compute. split; reflexivity. Qed.
+Proof.
+  intros text [<-|[<-|[]]]; vm_compute; split; reflexivity.
+Qed.
 
 (* Non-vacuity: the fragment contains non-trivial parsed paths, and they select nodes. *)
 Example C15_fragment_example :
@@ -272,8 +296,7 @@ Example C15_guard_rejects_nested :
 Proof. vm_compute. reflexivity. Qed.
 
 (* ... and the guard is needed: an operand that selects a hash makes the
-   subtraction evaluate `'x' in None` (TypeError); the guard rejects it, as it
-   rejects the collector-then-text path of finding F25 *)
+   subtraction evaluate `'x' in None` (TypeError); the guard rejects it *)
 Theorem C15_collector_nonscalar_refuted :
   exists text d,
     match prepare 20 text with
@@ -286,6 +309,8 @@ Proof.
   vm_compute. split; reflexivity.
 Qed.
 
-Example C15_guard_rejects_f25 :
-  match prepare 10 "(a)b" with Ok p => kc_fragment lit0 re0 nstr0 vstr0 p doc_ab | _ => true end = false.
+(* "(a)b" (finding F25, repaired) now reads like "(a).b": a collector over a
+   scalar operand followed by a key segment -- inside the guard *)
+Example C15_guard_accepts_collector_then_text :
+  match prepare 10 "(a)b" with Ok p => kc_fragment lit0 re0 nstr0 vstr0 p doc_ab | _ => false end = true.
 Proof. vm_compute. reflexivity. Qed.
